@@ -22,6 +22,7 @@ import (
 
 	. "verifharness/hlib"
 
+	"github.com/buchgr/bazel-remote/v2/cache"
 	"github.com/buchgr/bazel-remote/v2/cache/disk"
 	"github.com/buchgr/bazel-remote/v2/cache/disk/zstdimpl"
 	asset "github.com/buchgr/bazel-remote/v2/genproto/build/bazel/remote/asset/v1"
@@ -227,12 +228,20 @@ func newFixture(mode, impl string, limit int64) *fixture {
 var fxMaxSize int64 = maxSizeBytes
 var fxHardLimit int64
 
+// proxy backend and max_proxy_blob_size of the next fixture (the c10 slice sets them)
+var fxProxy cache.Proxy
+var fxMaxProxy int64
+
 // a cache + servers on an EXISTING directory (a restart, possibly under another storage mode)
 func newFixtureAt(dir, mode, impl string, limit int64) *fixture {
 	var err error
 	sl := log.New(io.Discard, "", 0)
-	c, err := disk.New(dir, fxMaxSize, disk.WithAccessLogger(sl), disk.WithStorageMode(mode),
-		disk.WithZstdImplementation(impl), disk.WithMaxBlobSize(limit), disk.WithMaxSizeHardLimit(fxHardLimit))
+	opts := []disk.Option{disk.WithAccessLogger(sl), disk.WithStorageMode(mode),
+		disk.WithZstdImplementation(impl), disk.WithMaxBlobSize(limit), disk.WithMaxSizeHardLimit(fxHardLimit)}
+	if fxProxy != nil {
+		opts = append(opts, disk.WithProxyBackend(fxProxy), disk.WithProxyMaxBlobSize(fxMaxProxy))
+	}
+	c, err := disk.New(dir, fxMaxSize, opts...)
 	if err != nil {
 		panic(err)
 	}
